@@ -312,6 +312,9 @@ func fullDoc(r *rng, nulls bool) interface{} {
 		if nulls && r.chance(1, 5) {
 			o["z"] = nil
 		}
+		if r.chance(1, 6) {
+			o["m"] = map[string]interface{}{} // empty containers are part of the quantifier
+		}
 		items[i] = o
 	}
 	d := map[string]interface{}{
@@ -321,6 +324,9 @@ func fullDoc(r *rng, nulls bool) interface{} {
 	}
 	if nulls && r.chance(1, 3) {
 		d["c"] = nil
+	}
+	if r.chance(1, 3) {
+		d["e"] = map[string]interface{}{}
 	}
 	if r.chance(1, 4) {
 		d["c"] = []interface{}{[]interface{}{[]interface{}{map[string]interface{}{"b": 1.0}}}, []interface{}{}}
